@@ -1874,25 +1874,31 @@ struct Value {
                         const VItem *obj_end  = item_->object_.End();
 
                         while (obj_item != obj_end) {
+                            // Removed members are skipped, like everywhere else.
                             if ((obj_item != nullptr) && !(obj_item->Value.isUndefined())) {
-                                if (count != grouped_key_index) {
+                                if (!(obj_item->Key.IsEqual(key, length))) {
                                     new_sub_obj[obj_item->Key] = obj_item->Value;
-                                } else if (!(obj_item->Value.SetCharAndLength(str, str_len))) {
-                                    stream.Clear();
+                                } else {
+                                    ++count;
 
-                                    if (obj_item->Value.CopyValueTo(stream)) {
-                                        str     = stream.First();
-                                        str_len = stream.Length();
-                                    } else {
-                                        return false;
+                                    if (!(obj_item->Value.SetCharAndLength(str, str_len))) {
+                                        stream.Clear();
+
+                                        if (obj_item->Value.CopyValueTo(stream)) {
+                                            str     = stream.First();
+                                            str_len = stream.Length();
+                                        } else {
+                                            return false;
+                                        }
                                     }
                                 }
-
-                                ++count;
-                                ++obj_item;
-                                continue;
                             }
 
+                            ++obj_item;
+                        }
+
+                        if (count == 0) {
+                            // This object does not have the grouping key.
                             return false;
                         }
 
